@@ -155,9 +155,9 @@ func runSched(c *Ctx) {
 		dense  int
 		tagged int
 	}
-	scns := []scn{{[]int{0, 1}, 1, 3}, {[]int{0, 0}, 1, 3}, {[]int{4, 5}, 1, 3}, {[]int{6, 7}, 1, 3}, {[]int{8, 1}, 1, 3}, {[]int{9, 10}, 1, 3}, {[]int{4, 4}, 1, 3}, {[]int{11, 11}, 1, 3}, {[]int{15, 16}, 1, 3}, {[]int{12, 13}, 1, 3}, {[]int{14, 14}, 1, 3}, {[]int{4, 17}, 1, 3}}
+	scns := []scn{{[]int{0, 1}, 1, 3}, {[]int{0, 0}, 1, 3}, {[]int{4, 5}, 1, 3}, {[]int{6, 7}, 1, 3}, {[]int{8, 1}, 1, 3}, {[]int{9, 10}, 1, 3}, {[]int{4, 4}, 1, 3}, {[]int{11, 11}, 1, 3}, {[]int{15, 16}, 1, 3}, {[]int{12, 13}, 1, 3}, {[]int{14, 14}, 1, 3}, {[]int{4, 17}, 1, 3}, {[]int{18, 19}, 1, 3}, {[]int{20, 5}, 1, 3}}
 	if c.Thorough() {
-		scns = []scn{{[]int{0, 1}, 2, 4}, {[]int{0, 0}, 2, 4}, {[]int{4, 5}, 2, 4}, {[]int{6, 7}, 2, 4}, {[]int{8, 1}, 2, 4}, {[]int{9, 10}, 2, 4}, {[]int{4, 4}, 2, 4}, {[]int{11, 11}, 2, 4}, {[]int{15, 16}, 2, 4}, {[]int{12, 13}, 2, 4}, {[]int{14, 14}, 2, 4}, {[]int{4, 17}, 2, 4}, {[]int{0, 1, 7}, 1, 3}, {[]int{4, 6, 5}, 1, 3}, {[]int{9, 0, 10}, 1, 3}}
+		scns = []scn{{[]int{0, 1}, 2, 4}, {[]int{0, 0}, 2, 4}, {[]int{4, 5}, 2, 4}, {[]int{6, 7}, 2, 4}, {[]int{8, 1}, 2, 4}, {[]int{9, 10}, 2, 4}, {[]int{4, 4}, 2, 4}, {[]int{11, 11}, 2, 4}, {[]int{15, 16}, 2, 4}, {[]int{12, 13}, 2, 4}, {[]int{14, 14}, 2, 4}, {[]int{4, 17}, 2, 4}, {[]int{18, 19}, 2, 4}, {[]int{20, 5}, 2, 4}, {[]int{0, 1, 7}, 1, 3}, {[]int{4, 6, 5}, 1, 3}, {[]int{9, 0, 10}, 1, 3}}
 	}
 	idx := 0
 	for _, s := range scns {
